@@ -48,6 +48,10 @@ def _state(case):
     return _STATE[k]
 
 
+def _genby2(case):
+    return case['genby'] + ' / second write'
+
+
 def _genby(case):
     if case.get('writer') in ('convert', 'convert_cli'):
         from biom.parse import generatedby
@@ -162,17 +166,48 @@ def _in_domain(case):
     return U.in_domain(dict(case, spec=sp)) and (sp.get('type') is None or sp['type'] in U.VOCAB)
 
 
-def _decoded(path, mask_date=False):
+def _validator_applies(case):
+    """the library's validator is one more observable where it can speak: not for a file with a user block (it takes
+    it for JSON and crashes: reported for C15) and not for a time-zone aware creation date (its ISO 8601 patterns have
+    no offset)"""
+    import datetime
+    if case.get('userblock'):
+        return False
+    try:
+        return (not U.dated(case)) or datetime.datetime.fromisoformat(case['date']).tzinfo is None
+    except ValueError:
+        return False
+
+
+def _date_seen(text, masked):
+    if masked and text is not None and U.now_or(['datetime', text]) == ['datetime', U.NOW]:
+        return U.NOW
+    return text
+
+
+def _decoded(path, mask_date=False, validate=True):
     tree, comp = U.raw_tree(path, mask_date=mask_date)
     try:
         rep = spec_decoder.decode(path)
     except Exception as e:      # the decoder must not hide a malformed file behind its own crash
         rep = {'problems': ['spec decoder could not read the file: %s: %s' % (type(e).__name__, str(e)[:120])],
                'csr': None, 'csc': None, 'shape': None, 'nnz': None, 'ids': {}, 'md_entries': {}, 'attrs': {}}
-    return {'write': 'ok', 'file': tree,
+    extra = {}
+    if validate and (rep.get('attrs') or {}).get('type') in U.VOCAB and (rep.get('attrs') or {}).get('generated-by', '').strip():
+        # one more observable: files the library writes for a table with a vocabulary type pass its own validator
+        try:
+            from biom.cli.table_validator import _validate_table
+            ok, lines = _validate_table(path)
+            extra['validates'] = bool(ok)
+            if not ok:
+                extra['validator_says'] = [str(x)[:120] for x in lines][:3]
+        except Exception as e:
+            extra['validates'], extra['validator_says'] = False, ['validator crashed: %s: %s' % (type(e).__name__, str(e)[:100])]
+    return {**extra, 'write': 'ok', 'file': tree,
             'spec': {'problems': rep['problems'], 'csr': rep['csr'], 'csc': rep['csc']},
             'seen': {'shape': rep['shape'], 'nnz': rep['nnz'], 'ids': rep['ids'], 'md_entries': rep['md_entries'],
-                     'type': (rep.get('attrs') or {}).get('type')}}
+                     'type': (rep.get('attrs') or {}).get('type'), 'generated-by': (rep.get('attrs') or {}).get('generated-by'),
+                     'creation-date': _date_seen((rep.get('attrs') or {}).get('creation-date'), mask_date)}}
 
 
 def run_impl(case):
@@ -214,19 +249,23 @@ def run_impl(case):
             U.write_table(t, case, path)
         except Exception as e:
             return {'write': ['err', tables.err_code(e)]}
-        out = _decoded(path, mask_date=case.get('writer') == 'convert')
+        # (the validator takes an HDF5 file with a user block for JSON and crashes: reported for C15, skipped here)
+        out = _decoded(path, mask_date=not U.dated(case), validate=_validator_applies(case))
         out['in_domain'] = _in_domain(case)
         if case.get('history'):
             # history: the file is loaded (optionally after being stamped as a BIOM 2.0 file, whose group layout
             # is the same) and the loaded table is written again
             try:
-                if case['history'] == 'reload20':
-                    with h5py.File(path, 'r+') as f:
+                with h5py.File(path, 'r+') as f:
+                    if case['history'] == 'reload20':
                         f.attrs['format-version'] = np.array([2, 0])
+                    if case.get('foreign_date'):
+                        # a file some other tool wrote: its date is not ISO 8601, the reader keeps it as raw text
+                        f.attrs['creation-date'] = case['foreign_date']
                 t1 = biom.load_table(path)
                 _LATER[jhash(case)] = U.enc_table_state(t1)
-                U.write_table(t1, case, path2)
-                out['later'] = _decoded(path2)
+                U.write_table(t1, case, path2, genby=_genby2(case))      # asked to record ANOTHER generated-by
+                out['later'] = _decoded(path2, mask_date=not U.dated(case), validate=_validator_applies(case))
             except Exception as e:
                 _LATER.setdefault(jhash(case), None)
                 out['later'] = {'write': ['err', tables.err_code(e), type(e).__name__]}
@@ -238,7 +277,7 @@ def run_impl(case):
 
 
 def encode(case):
-    date = '<now>' if case.get('writer') in ('convert', 'convert_cli') else case['date']
+    date = case['date'] if U.dated(case) else U.NOW
     k = jhash(case)
     if case.get('kind') == 'fixture' or case.get('writer') == 'convert_cli':
         if k not in _STATE:
@@ -250,11 +289,11 @@ def encode(case):
         if k not in _LATER:
             run_impl(case)
         if _LATER.get(k) is not None:
-            tree.append([_LATER[k]])
+            tree.append([[_LATER[k], U.cps(_genby2(case)), U.cps(date)]])
     return tree
 
 
-def _dec_part(w, csr_t, csc_t):
+def _dec_part(w, csr_t, csc_t, validate=True):
     if w[0] == -1:
         return {'write': ['err', w[1]]}
     f = U.dec_h5(w[1])
@@ -267,29 +306,39 @@ def _dec_part(w, csr_t, csc_t):
     def ents(ax):
         pre = '%s/metadata/' % ax
         return {k[len(pre):]: v['shape'] for k, v in f['dsets'].items() if k.startswith(pre)}
-    return {'write': 'ok', 'file': f,
+    extra = {'validates': True} if validate and f['attrs']['type'][1][2:] in U.VOCAB and f['attrs']['generated-by'][1][2:].strip() else {}
+    return {**extra, 'write': 'ok', 'file': f,
             'spec': {'problems': [] if csr is not None and csc is not None else ['model: the Coq spec decoder refuses the file'],
                      'csr': csr, 'csc': csc},
             'seen': {'shape': f['attrs']['shape'][1], 'nnz': f['attrs']['nnz'][1], 'type': f['attrs']['type'][1][2:],
+                     'generated-by': f['attrs']['generated-by'][1][2:], 'creation-date': f['attrs']['creation-date'][1][2:],
                      'ids': {'observation': ids('observation'), 'sample': ids('sample')},
                      'md_entries': {'observation': ents('observation'), 'sample': ents('sample')}}}
 
 
 def decode(tree, case):
-    out = _dec_part(tree[0], tree[1], tree[2])
+    val = _validator_applies(case)
+    out = _dec_part(tree[0], tree[1], tree[2], val)
     if out.get('write') != 'ok':
         return out
     out['in_domain'] = bool(tree[3])
     if case.get('history') and len(tree) > 4 and tree[4]:
-        out['later'] = _dec_part(*tree[4][0])
+        out['later'] = _dec_part(*tree[4][0], val)
     return out
 
 
 # ---------------------------------------------------------------- oracle: the property text
-def _check(s, part, label=''):
+def _check(s, part, label='', genby=None, date=None):
     n, m = len(s['oids']), len(s['sids'])
     fails = [label + 'not BIOM 2.1: ' + p for p in part['spec']['problems']]
     seen = part['seen']
+    if genby is not None and seen.get('generated-by') != genby:
+        fails.append(label + 'generated-by attribute %r, the writer was asked to record %r' % (seen.get('generated-by'), genby))
+    if date is not None and seen.get('creation-date') != date:
+        fails.append(label + 'creation-date attribute %r, the writer was asked to record %s'
+                     % (seen.get('creation-date'), 'the current time (ISO 8601)' if date == U.NOW else repr(date)))
+    if part.get('validates') is False:
+        fails.append(label + 'the library\'s own validator rejects the file: %s' % (part.get('validator_says'),))
     if seen['shape'] != [n, m]:
         fails.append(label + 'shape attribute %s, the table is %d x %d' % (seen['shape'], n, m))
     true_nnz = sum(1 for row in s['mat'] for v in row if v != 0)
@@ -325,7 +374,8 @@ def oracle(case, obs):
             return []           # refused, as it must be (which exception: compared with the model)
         return ['writing a table of the property domain failed: %s' % (obs.get('write'),)]
     s = _source(case)
-    fails = _check(s, obs)
+    date = case['date'] if U.dated(case) else U.NOW
+    fails = _check(s, obs, '', _genby(case), date)
     if case.get('expect') == 'refuse':
         fails = ['written although the format cannot represent the table (%s), and the file does not decode to it: %s'
                  % (case.get('refusal'), f) for f in fails] or \
@@ -336,7 +386,7 @@ def oracle(case, obs):
         if later.get('write') != 'ok':
             fails.append(lab + 'writing failed: %s' % (later.get('write'),))
         else:
-            fails += _check(s, later, lab)
+            fails += _check(s, later, lab, _genby2(case), date)
     return fails[:4]
 
 
@@ -349,6 +399,8 @@ def gen(rng, tier):
         c.pop('gen2', None)
         if rng.random() < 0.35:
             c['history'] = rng.choice(['reload', 'reload20', 'reload20'])
+            if rng.random() < 0.5:
+                c['foreign_date'] = rng.choice(['24 Aug 2015, 10:15', 'Mon Aug 24 10:15:00 2015', ''])
         return c
     for f in FIXTURES:      # shipped files (BIOM 2.0 and 2.1): load, write, decode
         yield {'kind': 'fixture', 'file': f, 'genby': 'fixture', 'date': '2014-07-29T16:16:36.617320', 'compress': bool(rng.getrandbits(1)),
